@@ -157,6 +157,7 @@ pub fn replay_vrange(args: &Args) {
                 None => c["amount"]["v"].as_u64().unwrap(),
             };
             let expect = c["expect"].as_str().unwrap();
+            h_common::current_case(c);
             let serve_all = c["serve"].as_u64().unwrap_or(1) == 1;
             let from = chain[(h - 1) as usize].clone();
             let (p2p, mut handle) = w::mocked_p2p();
